@@ -10,8 +10,8 @@ func init() {
 		New:       func(tier string) core.Engine { return &faultsim{prop: "C03", tier: tier} },
 		QuickRuns: 40000, QuickCapS: 75, ThoroughRun: 1500000, ThoroughCap: 1500,
 		Rule: "a case = (history of 1-6 outermost API calls over generated bodies, fault schedule); distinct = distinct tuple (fault kind, API kind, context path of the probe where it fired, in-flight summary: call depth bucket/open try/open iterator/native nesting/pending jobs/async) over the faults of the run; non-trivial = a fault fired while in-flight state existed (depth>1, open try, open iterator, native->JS nesting, pending jobs or async activation)",
-		Real:      realComponents,
-		Stub:      []string{"every host native function (probes P/Q/A, re-entry natives NR/NC/NF/NK/NO/NG/NN)", "the interrupting watchdog (raised from the tick hook / from inside a probe on the same goroutine)", "Math.random"},
+		Real: realComponents,
+		Stub: []string{"every host native function (probes P/Q/A, re-entry natives NR/NC/NF/NK/NO/NG/NN)", "the interrupting watchdog (raised from the tick hook / from inside a probe on the same goroutine)", "Math.random"},
 		Assumptions: []string{
 			"generated bodies keep all state inside the call (no global or captured writes), so a fresh runtime that ran the same history without faults is the 'completed effects only' twin",
 			"host natives propagate uncatchable errors they receive from nested calls (panic or return); a host that swallows an InterruptedError is outside the property",
@@ -19,5 +19,20 @@ func init() {
 			"idle-state invariant excludes pc, prg and stack==nil, which are stale after clean runs too",
 		},
 		FaultKinds: []string{"throw-prim", "throw-error", "throw-exception", "goerr", "intr", "tick-intr", "depth", "foreign", "idle-intr", "idle-intr-then-clear"},
+	})
+	core.Register(&core.Spec{
+		Property: "C15", EngineName: "faultsim+watchdog (race build)", Race: true,
+		New:       func(tier string) core.Engine { return &faultsim{prop: "C15", tier: tier, async: true} },
+		QuickRuns: 12000, QuickCapS: 90, ThoroughRun: 600000, ThoroughCap: 1500,
+		Rule: "a case = (history of 1-6 outermost API calls over generated bodies, interrupt schedule); interrupts are raised inside a probe, from the per-instruction tick hook, or by a real second goroutine released at a chosen VM tick through a happens-before-transparent baton (binary built with -race); distinct = distinct tuple (interrupt kind, API kind, context path of the last probe before the raise, in-flight summary); non-trivial = the interrupt landed while in-flight state existed",
+		Real: append(append([]string{}, realComponents...), "Go race detector", "real second goroutine calling Runtime.Interrupt"),
+		Stub: []string{"every host native function", "the moment the watchdog goroutine runs (chosen by the tape, serialised with raw pipe syscalls that add no happens-before edge)", "Math.random"},
+		Assumptions: []string{
+			"interleaving granularity is the VM instruction: the watchdog runs between two instructions, never in the middle of one",
+			"the race detector keeps a bounded access history per memory word; a clean batch is evidence, not proof",
+			"host natives propagate uncatchable errors they receive from nested calls",
+			"bound B on instructions executed after Interrupt() is 100000 (the property says bounded, not immediate)",
+		},
+		FaultKinds: []string{"intr", "tick-intr", "async-intr", "idle-intr", "idle-intr-then-clear", "idle-async-intr", "idle-async-intr-then-clear"},
 	})
 }
